@@ -96,6 +96,11 @@ type ScriptedPeer struct {
 	Gate  func(rpc string) bool // optional: called before answering; false = drop the stream
 	// Custom (Leg R) sees every SendHeaders / SendV2Blocks / SendCheckpoint request first; true = handled
 	Custom func(rpc string, req gateway.Object, s *gateway.Stream) bool
+	// HangupOn: hang up (close the connection) right after delivering an answer / relay of this kind --
+	// before the victim has reached its verdict
+	HangupOn func(kind string) bool
+	hung     bool
+	armed    bool
 
 	mu      sync.Mutex
 	t       *gateway.Transport
@@ -167,6 +172,7 @@ func (z *ScriptedPeer) DialTo(addr string) error {
 func (z *ScriptedPeer) attach(t *gateway.Transport, conn net.Conn) {
 	z.mu.Lock()
 	z.t = t
+	z.hung = false
 	z.conns = append(z.conns, conn)
 	z.mu.Unlock()
 	go z.serve(t)
@@ -238,8 +244,56 @@ func (z *ScriptedPeer) Fired(kind string) int {
 
 func (z *ScriptedPeer) note(rpc, kind, info string) {
 	z.mu.Lock()
-	defer z.mu.Unlock()
 	z.served = append(z.served, Served{rpc, kind, info, time.Since(z.start).Milliseconds()})
+	arm := kind != "" && z.HangupOn != nil && z.HangupOn(kind) && !z.hung && !z.armed
+	if arm {
+		z.armed = true
+	}
+	z.mu.Unlock()
+	if arm {
+		// the victim must first RECEIVE the data: the scenario hangs up from the victim's verdict gate
+		// (HangupIfArmed); where no ChainManager call precedes the verdict this timer does it
+		go func() {
+			time.Sleep(300 * time.Millisecond)
+			z.HangupIfArmed()
+		}()
+	}
+}
+
+// HangupIfArmed hangs up if a marked answer / relay has been delivered and the peer is still connected.
+func (z *ScriptedPeer) HangupIfArmed() bool {
+	z.mu.Lock()
+	do := z.armed && !z.hung
+	z.armed = false
+	z.mu.Unlock()
+	if do {
+		z.hangup()
+	}
+	return do
+}
+
+// hangup closes the connection to the victim (the listener stays: the peer may come back).
+func (z *ScriptedPeer) hangup() {
+	z.mu.Lock()
+	z.hung = true
+	t := z.t
+	conns := z.conns
+	z.conns = nil
+	z.served = append(z.served, Served{"hangup", "", "connection closed by the scripted peer", time.Since(z.start).Milliseconds()})
+	z.mu.Unlock()
+	if t != nil {
+		t.Close()
+	}
+	for _, c := range conns {
+		c.Close()
+	}
+}
+
+// Hung reports whether the peer has hung up on the victim.
+func (z *ScriptedPeer) Hung() bool {
+	z.mu.Lock()
+	defer z.mu.Unlock()
+	return z.hung
 }
 
 // rule returns the corruption for this request, if any.
